@@ -26,6 +26,9 @@ func c28Opts(dir string, builder bool) node.Options {
 	return node.Options{DataDir: dir, Cfg: func(c *types.Config) {
 		c.BlockChain.HighAllowPackHeight = packHigh
 		c.BlockChain.LowAllowPackHeight = packLow
+		// recent-block cache smaller than the height window (as in production: 128 < 200+600), so that the window
+		// cache cannot be fed from the block cache alone after a restart
+		c.BlockChain.DefCacheSize = 2
 		if builder {
 			c.Exec.DisableTxDupCheck = true
 		}
